@@ -680,7 +680,13 @@ class Condition(ConditionLike):
                     if not result_i:
                         callable_false_i = True
 
-                except (TypeError, AttributeError, ZeroDivisionError, ValueError):
+                except (
+                    TypeError,
+                    AttributeError,
+                    ZeroDivisionError,
+                    OverflowError,  # e.g. `"%c" % 1114112` (a string datum makes `%` a format)
+                    ValueError,
+                ):
                     callable_error_i = True
 
             pre_processor_error.append(pre_processor_error_i)
